@@ -36,7 +36,7 @@ func TestAcceptAfterCloseWithStalledConnections(t *testing.T) {
 		if err != nil {
 			rt.Fatalf("provision wrapper: %v", err)
 		}
-		base, err := net.Listen("tcp", "127.0.0.1:0")
+		base, err := hx.Listen("tcp", "127.0.0.1:0")
 		if err != nil {
 			rt.Fatalf("listen: %v", err)
 		}
@@ -54,7 +54,7 @@ func TestAcceptAfterCloseWithStalledConnections(t *testing.T) {
 		}()
 		var kindsUsed []string
 		for i := rapid.IntRange(1, 4).Draw(rt, "stalled"); i > 0; i-- {
-			c, err := net.Dial("tcp", base.Addr().String())
+			c, err := hx.Dial("tcp", base.Addr().String())
 			if err != nil {
 				rt.Fatalf("dial: %v", err)
 			}
